@@ -49,6 +49,16 @@ NOTES = {
  "C16-4": "the same change as seed C06-2 (List reads the revision again for the header), produced independently for C16; missed by C16 at first (its concurrent cases had no readers) -> two concurrent etcd Range readers were added whose answers must be the key's state at their header revision; C06 and C04 caught it as it was",
  "C19-4": "the same change as seed C05-2, produced independently for C19; caught as it was",
  "C20-4": "caught as it was (a negative limit is one of C20's hostile values; the panic in a scanner worker goroutine kills the worker, which the driver reports as a crash)",
+ "C01-4": "not caught by C01 itself: the change only manifests after an unknown-outcome (applied) delete has been repaired by the retry loop, a storage fault outside C01's quantifier; C09 catches it (watch-stream-did-not-converge)",
+ "C03-4": "caught as it was (C03 pass C: reads at and above the compaction revision after a compaction below the head; C07)",
+ "C07-4": "missed by C07 at first (the faulty engine was seen directly, not through the production storage metrics wrapper); 3 of 9 C07 histories now put the metrics wrapper between the backend and the faulty engine",
+ "C10-4": "missed by C10 at first (every node under test used the harness's key prefix); every 4th C10 case now compacts nodes configured with the key prefixes \"\" (the --key-prefix default), \"/\", with/without trailing slash, with a doubled slash and relative, and checks in the engine dump that exactly the records under the prefix were reached",
+ "C11-4": "missed by C11 at first (no writer ever slipped between a batch's begin and its commit); on TiKV, where an open batch holds no engine lock, a third of the batches are now overtaken by another writer committing to one of their keys before they commit",
+ "C12-4": "the stale compaction request never returns on memkv (store mutex taken in BeginBatchWrite and never released): the worker hangs until the watchdog kills it, which used to be an inconclusive death. The driver now reads the SIGQUIT goroutine dump: a case goroutine parked inside kubebrain on a synchronisation primitive for >= 1 minute while no goroutine of the node is running, runnable or in a system call is reported as 'stall request-never-returns ...'",
+ "C14-4": "caught as it was (C14 porcupine histories on TiKV, C01 chain, C11 concurrent conditional writers)",
+ "C15-4": "missed by C15 at first (no storage metrics wrapper, no oracle failure); every third fail-over now runs behind the production metrics wrapper with the engine's timestamp oracle failing once during the take-over (the failed attempt is repeated)",
+ "C17-4": "missed by C17 at first (the second compaction always named the current revision); in a third of the cases it now names an older revision than the first one",
+ "C18-4": "missed by C18 at first (the leader's answer was always complete or absent); matrix modes 'a 200 answer cut off half-way through its body' and 'a 200 answer whose body is not the revision document' were added. The second exposed defect 31 on the unchanged tree (fixed in 04202ba); the seed was rebased onto the fixed tree (patch.original.diff is the sub-agent's patch)",
  "C20-3": "missed by C20 at first: the node ends the process through klog.Fatal, which the driver used to classify as an inconclusive child death; the worker now lets klog FATAL lines through to stderr and the driver reports 'crash klog.Fatal in <file>' as a violation (except the deliberate 'leader lost' exit)",
 }
 for d in sorted(glob.glob('/verif/seeded/C*')):
